@@ -19,6 +19,8 @@ package verifharness
 //   reset | pset fam src dst seq val | nset src dst n | cset name rev h | clset name | tmset name rev h t
 //   evmset name rev h | raw key c|s|<hex> | dump | ihash fam | iseq | icons | iclients | tmpt name | tmasc name
 //   bscasc name | ethasc name
+//   bypath-get src dst | bypath-iter src dst     (GetAllPacketCommitmentsByPath / IteratePacketCommitmentByPath)
+//   grpc commit|ack src dst                      (query server PacketCommitments / PacketAcknowledgements)
 
 import (
 	"bytes"
@@ -35,6 +37,7 @@ import (
 	"unicode/utf8"
 
 	sdk "github.com/cosmos/cosmos-sdk/types"
+	"github.com/cosmos/cosmos-sdk/types/query"
 	"github.com/ethereum/go-ethereum/accounts/abi"
 	tmproto "github.com/tendermint/tendermint/proto/tendermint/types"
 
@@ -654,6 +657,102 @@ func (w *c19World) apply(r *Rec, op string) string {
 		r.Nontrivial(strings.Join(w.hist, ";"))
 		return c19OkList(out)
 
+	case "bypath-get", "bypath-iter", "grpc":
+		fam := "commit"
+		fn := "GetAllPacketCommitmentsByPath"
+		ai := 1
+		if f[0] == "grpc" {
+			fam, ai = f[1], 2
+			fn = map[string]string{"commit": "grpc.PacketCommitments", "ack": "grpc.PacketAcknowledgements"}[fam]
+		} else if f[0] == "bypath-iter" {
+			fn = "IteratePacketCommitmentByPath"
+		}
+		src, dst := string(unhx(f[ai])), string(unhx(f[ai+1]))
+		var out []string
+		var qerr error
+		pk := w.app.XIBCKeeper.PacketKeeper
+		show := func(a, b string, seq uint64, val []byte) {
+			out = append(out, hxs(a)+":"+hxs(b)+":"+strconv.FormatUint(seq, 10)+":"+w.kindOf(val))
+		}
+		pan, msg := safely(func() {
+			switch {
+			case f[0] == "bypath-get":
+				for _, ps := range pk.GetAllPacketCommitmentsByPath(w.ctx, src, dst) {
+					show(ps.SrcChain, ps.DstChain, ps.Sequence, ps.Data)
+				}
+			case f[0] == "bypath-iter":
+				pk.IteratePacketCommitmentByPath(w.ctx, src, dst, func(a, b string, seq uint64, val []byte) bool { show(a, b, seq, val); return false })
+			case fam == "commit":
+				var resp *packettypes.QueryPacketCommitmentsResponse
+				resp, qerr = pk.PacketCommitments(sdk.WrapSDKContext(w.ctx), &packettypes.QueryPacketCommitmentsRequest{SrcChain: src, DstChain: dst, Pagination: &query.PageRequest{Limit: 1 << 20}})
+				if qerr == nil {
+					for _, ps := range resp.Commitments {
+						show(ps.SrcChain, ps.DstChain, ps.Sequence, ps.Data)
+					}
+				}
+			case fam == "ack":
+				var resp *packettypes.QueryPacketAcknowledgementsResponse
+				resp, qerr = pk.PacketAcknowledgements(sdk.WrapSDKContext(w.ctx), &packettypes.QueryPacketAcknowledgementsRequest{SrcChain: src, DstChain: dst, Pagination: &query.PageRequest{Limit: 1 << 20}})
+				if qerr == nil {
+					for _, ps := range resp.Acknowledgements {
+						show(ps.SrcChain, ps.DstChain, ps.Sequence, ps.Data)
+					}
+				}
+			default:
+				r.t.Fatalf("bad op %q", op)
+			}
+		})
+		clean := !w.dirty && c19ValidName(src) && c19ValidName(dst)
+		// ---- oracle: the by-path read returns exactly what was written for (src, dst) ----
+		want := map[string]string{}
+		related, srcRelated := false, false
+		for k, v := range w.written[fam] {
+			p := strings.Split(k, ":")
+			a, b := string(unhx(p[0])), string(unhx(p[1]))
+			if a == src && b == dst {
+				want[k] = v
+				continue
+			}
+			if a == src && len(b) > len(dst) && strings.HasPrefix(b, dst) {
+				related = true // another destination whose NAME extends the requested one
+			}
+			if len(a) > len(src) && strings.HasPrefix(a, src) {
+				srcRelated = true
+			}
+		}
+		if pan {
+			r.Count("iter.panic")
+			if clean {
+				w.find(r, "C19:bypath-readback-panic:"+fn, "by-path scan panics on keys written through the keeper with valid names: "+msg, "panic", sortedKV(want))
+			}
+			return "panic"
+		}
+		if qerr != nil {
+			r.Count("bypath.err")
+			if clean {
+				w.find(r, "C19:bypath-readback-error:"+fn, "by-path query fails on keys written through the keeper with valid names: "+qerr.Error(), "error", sortedKV(want))
+			}
+			return "err"
+		}
+		if clean {
+			r.Count("oracle.bypath-readback")
+			if related {
+				r.Count("bypath.prefix-related")
+			}
+			if srcRelated {
+				r.Count("bypath.src-prefix-related")
+			}
+			if len(want) > 0 {
+				r.Count("bypath.nonempty")
+			}
+			if !c19SetEq(out, want) {
+				w.find(r, "C19:bypath-readback:"+fn, "a per-path scan for (src, dst) does not return exactly the entries written for (src, dst)",
+					strings.Join(out, ","), sortedKV(want))
+			}
+		}
+		r.Nontrivial(strings.Join(w.hist, ";"))
+		return c19OkList(out)
+
 	case "iseq":
 		var out []string
 		var seqs []packettypes.PacketSequence
@@ -1120,6 +1219,86 @@ func (g c19Gen) history(clean bool, long bool) []string {
 	return h
 }
 
+// chain names where one valid name is a proper string prefix of another / names differing by allowed punctuation
+var c19RelatedNames = [][]string{
+	{"bsc", "bsc-testnet", "bsc-testnet-2", "bsc-"},
+	{"eth", "eth2", "eth2.0", "eth20"},
+	{"abc", "abc.d", "abc_d", "abc+d", "abc-d", "abc#d", "abc[d]", "abc<d>", "abc.", "abc.d.e"},
+	{"chain-1", "chain-10", "chain-11", "chain-1.1"},
+	{"tele", "teleport", "teleport_9000-1", "teleport_9000-10"},
+	{"[a]", "[a]<b>", "[a]<b>#1"},
+}
+
+var c19Seqs = []uint64{1, 9, 10, 11, 1<<64 - 1, 100, 19, 90, 99, 101, 1<<64 - 2}
+
+// histories for the per-path scans: several (src, dst) pairs with prefix-related names, several sequences
+func (g c19Gen) bypathHistory(clean bool) []string {
+	h := []string{"reset"}
+	fam := c19RelatedNames[g.n(len(c19RelatedNames))]
+	fam2 := c19RelatedNames[g.n(len(c19RelatedNames))]
+	pick := func(f []string, k int) []string {
+		var out []string
+		for _, i := range g.r.Rng.Perm(len(f))[:k] {
+			out = append(out, f[i])
+		}
+		return out
+	}
+	dsts := pick(fam, 2+g.n(len(fam)-1))
+	srcs := pick(fam2, 1+g.n(2))
+	if g.n(4) == 0 { // the same family on both sides
+		srcs = pick(fam, 1+g.n(2))
+	}
+	seq := func() uint64 {
+		if g.n(5) == 0 {
+			return g.u64()
+		}
+		return c19Seqs[g.n(len(c19Seqs))]
+	}
+	for _, s := range srcs {
+		for _, d := range dsts {
+			for k, n := 0, g.n(4); k < n; k++ {
+				q := seq()
+				v := hx(g.randBytes(1 + g.n(32)))
+				switch g.n(6) {
+				case 0:
+					h = append(h, fmt.Sprintf("pset ack %s %s %d %s", hxs(s), hxs(d), q, v))
+				case 1:
+					h = append(h, fmt.Sprintf("pset receipt %s %s %d %s", hxs(s), hxs(d), q, v))
+				case 2:
+					h = append(h, fmt.Sprintf("pset commit %s %s %d %s", hxs(s), hxs(d), q, v), fmt.Sprintf("pset ack %s %s %d %s", hxs(s), hxs(d), q, v))
+				default:
+					h = append(h, fmt.Sprintf("pset commit %s %s %d %s", hxs(s), hxs(d), q, v))
+				}
+			}
+		}
+	}
+	if !clean {
+		s, d := srcs[0], dsts[0]
+		raws := []string{
+			"commitments/" + s + "/" + d + "/sequences/xyz", "commitments/" + s + "/" + d + "/sequencesX/5", "commitments/" + s + "/" + d + "/sequences/5/6",
+			"commitments/" + s + "/" + d + "/sequences", "commitments/" + s + "/" + d + "/sequences/", "commitments/" + s + "/" + d, "commitments/" + s + "/" + d + "x/sequences/3",
+			"acks/" + s + "/" + d + "/sequences/007", "acks/" + s + "/" + d + "/sequences/18446744073709551616", "commitments/" + s + "/" + d + "/sequences/-1",
+		}
+		for k, n := 0, 1+g.n(3); k < n; k++ {
+			h = append(h, "raw "+hxs(raws[g.n(len(raws))])+" "+[]string{"ff", "0102", "c"}[g.n(3)])
+		}
+		if g.n(2) == 0 {
+			bad := c19InvalidNames[g.n(len(c19InvalidNames))]
+			h = append(h, fmt.Sprintf("pset commit %s %s %d 01", hxs(srcs[0]), hxs(bad), seq()))
+			h = append(h, "grpc commit "+hxs(srcs[0])+" "+hxs(bad), "bypath-get "+hxs(srcs[0])+" "+hxs(bad))
+		}
+	}
+	h = append(h, "ihash commit", "ihash ack")
+	for _, s := range srcs {
+		for _, d := range dsts {
+			h = append(h, "bypath-get "+hxs(s)+" "+hxs(d), "bypath-iter "+hxs(s)+" "+hxs(d), "grpc commit "+hxs(s)+" "+hxs(d), "grpc ack "+hxs(s)+" "+hxs(d))
+		}
+	}
+	// a pair nothing was written for, and the roles swapped
+	h = append(h, "bypath-get "+hxs(dsts[0])+" "+hxs(srcs[0]), "grpc commit "+hxs(dsts[0])+" "+hxs(srcs[0]), "grpc ack "+hxs(fam[0])+" "+hxs(fam[len(fam)-1]))
+	return h
+}
+
 func TestC19(t *testing.T) {
 	r := NewRec(t, "C19")
 	defer r.Close()
@@ -1219,5 +1398,15 @@ func TestC19(t *testing.T) {
 			r.Count("hist.dirty")
 		}
 		run(g.history(clean, g.n(10) == 0))
+	}
+	// 5. per-path scans (keeper by-path iterator, gRPC queries) over prefix-related chain names
+	for i := 0; i < 80*scale; i++ {
+		clean := g.n(5) < 4
+		if clean {
+			r.Count("bypath.hist.clean")
+		} else {
+			r.Count("bypath.hist.dirty")
+		}
+		run(g.bypathHistory(clean))
 	}
 }
